@@ -4,6 +4,7 @@ import (
 	"encoding/json"
 	"fmt"
 	"math/rand"
+	"sync"
 	"time"
 
 	"github.com/tochemey/goakt/v4/actor"
@@ -24,11 +25,15 @@ type freeState struct {
 
 var free *freeState
 
+// retired: controllers of finished flows (they may still handle a few messages while
+// their endpoint is shutting down)
+var retired sync.Map
+
 func (f *Flow) freeRole(pid *actor.PID) (string, *Consumer) {
 	switch {
 	case f.pctl != nil && pid.Equals(f.pctl):
 		return "pc", nil
-	case f.prod != nil && pid.Equals(f.prod):
+	case (f.prod != nil && pid.Equals(f.prod)) || pid.Name() == f.prodName:
 		return "p", nil
 	}
 	if c := f.consumerByCtl(pid); c != nil {
@@ -46,14 +51,24 @@ func (f *Flow) freeSelf(rc *actor.ReceiveContext) (string, *Consumer) {
 	if role != "" {
 		return role, c
 	}
+	// a controller that reports before Spawn returned its endpoint: adopt it only if it
+	// is the child of the endpoint being spawned (late events of an earlier flow's
+	// controllers must never be mistaken for this flow's)
+	parent := ""
+	if p := rc.Self().Parent(); p != nil {
+		parent = p.Name()
+	}
+	if _, gone := retired.Load(rc.Self().ID()); gone {
+		return "", nil
+	}
 	switch rc.Self().Actor().(type) {
 	case ccProjector:
-		if sp := free.spawning; sp != nil && sp.ctl == nil {
+		if sp := free.spawning; sp != nil && sp.ctl == nil && (parent == sp.epName || parent == "") {
 			sp.ctl = rc.Self()
 			return "cc", sp
 		}
 	case pcProjector, wpProjector:
-		if f.pctl == nil {
+		if f.pctl == nil && (parent == f.prodName || parent == "") {
 			f.pctl = rc.Self()
 			return "pc", nil
 		}
@@ -96,7 +111,15 @@ func (f *Flow) freeBegin(rc *actor.ReceiveContext, who string, c *Consumer) abs 
 	}
 	if f.begun[key] != rc.Message() {
 		f.begun[key] = rc.Message()
-		f.emit(abs{"e": "begin", "who": who, "w": w, "m": in})
+		ev := abs{"e": "begin", "who": who, "w": w, "m": in}
+		if n, ok := in["n"].(int); ok && n < 0 {
+			sender := "<nil>"
+			if rc.Sender() != nil {
+				sender = rc.Sender().ID()
+			}
+			ev["dbg"] = abs{"self": rc.Self().ID(), "sender": sender, "flow": f.id}
+		}
+		f.emit(ev)
 	}
 	return in
 }
@@ -104,6 +127,9 @@ func (f *Flow) freeBegin(rc *actor.ReceiveContext, who string, c *Consumer) abs 
 func (f *Flow) freeTell(rc *actor.ReceiveContext, env *Envelope) int {
 	f.mu.Lock()
 	defer f.mu.Unlock()
+	if f.closed {
+		return 0
+	}
 	who, c := f.freeSelf(rc)
 	if who == "" {
 		return 0
@@ -154,6 +180,9 @@ func (f *Flow) freeTell(rc *actor.ReceiveContext, env *Envelope) int {
 func (f *Flow) freeBufFull(obj any, seq int64) {
 	f.mu.Lock()
 	defer f.mu.Unlock()
+	if f.closed {
+		return
+	}
 	for _, c := range f.cons {
 		if c.ctl != nil && c.ctl.Actor() == obj {
 			f.emit(abs{"e": "send", "from": "cc", "to": "obs", "w": c.name, "m": abs{"t": "BufFull", "seq": seq}})
@@ -164,12 +193,18 @@ func (f *Flow) freeBufFull(obj any, seq int64) {
 func (f *Flow) freeIllegal() {
 	f.mu.Lock()
 	defer f.mu.Unlock()
+	if f.closed {
+		return
+	}
 	f.emit(abs{"e": "send", "from": "pc", "to": "obs", "w": f.curW, "m": abs{"t": "Illegal"}})
 }
 
 func (f *Flow) freeReceived(rc *actor.ReceiveContext) {
 	f.mu.Lock()
 	defer f.mu.Unlock()
+	if f.closed {
+		return
+	}
 	who, c := f.freeSelf(rc)
 	if who == "" {
 		return
@@ -217,7 +252,7 @@ func freeRuns(kind, tracePath string, window, n int, seed int64, runs int) {
 		resend := time.Duration(15+rng.Intn(25)) * time.Millisecond
 		retry := time.Duration(10+rng.Intn(20)) * time.Millisecond
 		var done bool
-		if kind == "p2p" {
+		if kind == "p2p" || kind == "p2pch" {
 			c := f.addConsumer("c")
 			must(f.spawnProducer(retry))
 			f.mu.Lock()
@@ -232,6 +267,15 @@ func freeRuns(kind, tracePath string, window, n int, seed int64, runs int) {
 		h.cur = nil
 		h.mu.Unlock()
 		f.mu.Lock()
+		f.closed = true // a hook that picked this flow up before h.cur was cleared must not log after "fin"
+		if f.pctl != nil {
+			retired.Store(f.pctl.ID(), true)
+		}
+		for _, c := range f.cons {
+			if c.ctl != nil {
+				retired.Store(c.ctl.ID(), true)
+			}
+		}
 		f.finLine(done)
 		for _, c := range f.cons {
 			stats.Deliveries += len(c.delivs)
